@@ -438,12 +438,15 @@ func runC11(c *core.Ctx) {
 						continue
 					}
 				}
-				pt, err, pan := decryptTotal(t, "C11/struct", priv, tgt)
-				t.Outcome(outcomeOf(err, pan))
-				if firstCertMismatches(tgt, priv) {
-					mustErr(t, "C11/struct/accepts-mismatching-certificate", pt, err, pan, tgt, "embedded certificate does not match the private key ("+key+")")
-				} else {
-					t.Compared()
+				// the same element with the same key three times in a row (a re-sent message; EncryptedKey then the enclosing EncryptedData)
+				for rep := 1; rep <= 3; rep++ {
+					pt, err, pan := decryptTotal(t, "C11/struct", priv, tgt)
+					t.Outcome(outcomeOf(err, pan))
+					if firstCertMismatches(tgt, priv) {
+						mustErr(t, "C11/struct/accepts-mismatching-certificate", pt, err, pan, tgt, fmt.Sprintf("embedded certificate does not match the private key (%s, presentation %d)", key, rep))
+					} else {
+						t.Compared()
+					}
 				}
 			}
 		})
